@@ -24,11 +24,11 @@ CHECKS = {
   "Trusts the model's token extents (cross-checked against the real spans on every document).",
   "exhaustive enumeration of bounded input universes; span equality with model token extents plus model-free span laws"),
  "C15": ("model_checking", "enum", "5/C15",
-  "Bounded-exhaustive: every rejected text of the universes (token sequences, lexical contexts, corpus mutants, all byte values at every frame position, multi-byte truncations and edits) yields errors from both crates that must have a non-empty message, an in-bounds char-aligned span, panic-free Display/Debug and a rendered line/column equal to an independently computed position (characters, one past the end at end of input); every (document, mismatching target type) pair of a typed family must carry the offending value's span (from_str) or the key path (Value::try_into).",
-  "Reference position computed independently of the implementation; one known finding (empty message at a bare CR, pinned by the repository's own snapshot) is recognised by position.",
+  "Bounded-exhaustive: every rejected text of the universes (token sequences, lexical contexts, corpus mutants, all byte values at every frame position, multi-byte truncations and edits) yields errors from both crates that must have a non-empty message, an in-bounds char-aligned span, panic-free Display/Debug and a rendered line/column equal to an independently computed position (characters, one past the end at end of input); the same holds for the entry points below the document (Value / Key / key path / both ValueDeserializers / Datetime::from_str over unframed value strings and all token sequences <= 4-5 over a value-level alphabet); every (document, mismatching target type) pair of a typed family (19 layouts x 9 literals x 9 targets) is sent through every decoding route: the 7 routes that have the source text must carry the offending value's span, the 3 document routes and 5 single-value routes without it must carry the key path.",
+  "Reference position computed independently of the implementation; one known finding (empty message at a bare CR, pinned by the repository's own snapshot) is recognised by position. The two front ends are compared on error spans, never on wording.",
   "exhaustive enumeration of rejected inputs and (document, type) pairs; independent line/column oracle"),
  "C20": ("model_checking", "enum", "5/C20",
-  "Bounded-exhaustive: for every model-valid text of the universes and a family of API-built documents (placeholders, conversions) a recording Visit and VisitMut are run and the callback sequence (kind, node address, content) compared with an independent pre-order walk through the public accessors; an integer-rewriting VisitMut must change every integer and nothing else (decoded tree == model tree + 1, text identical outside integer tokens).",
+  "Bounded-exhaustive: for every model-valid text of the universes and a family of API-built documents (every 3-step history over 8 operations: placeholders, conversions, vacated array / array-of-tables slots and table entries, empty containers) a recording Visit and VisitMut (overriding every hook incl. visit_table_like, visit_item, visit_value) are run and the callback sequence (kind, node address, content) compared with an independent pre-order walk through the public accessors; an integer-rewriting VisitMut must change every integer and nothing else (decoded tree == model tree + 1, text identical outside integer tokens).",
   "Document order = order of the public iterators; the independent walk uses only iter()/as_*() accessors.",
   "exhaustive enumeration of bounded input universes; visitor trace equality with an independent tree walk"),
  "C10": ("model_checking", "enum", "5/C10",
@@ -48,36 +48,36 @@ CHECKS = {
   "The property holds for all inputs only as far as the bounded universes reach; silent out-of-bounds reads would need a memory checker (the checked from_utf8 branch and slice indexing turn reachable ones into panics in this build).",
   "exhaustive enumeration of bounded input universes on all entry points under catch_unwind, process isolation and a watchdog"),
  "C05": ("exploration", "proc", "5/C05",
-  "Every combination of header kind x depth, dotted-key depth and up to 2-3 value constructs x depth over a depth set around the limit (1, 2, 39, 40, 78-81, 200, 3000) is parsed, printed, debug-printed, cloned, dropped, despanned and deserialized on a 2 MiB thread inside a sacrificial process, in an opt-level-0 build and a release build; the worker must survive, rejection must be the recursion-limit error, accepted trees are at most K = 160 deep, single constructs are accepted below 80 and rejected from 80.",
+  "Every combination of header kind x depth, dotted-key depth and up to 2-3 value constructs x depth over a depth set around the limit (1, 2, 39, 40, 78-81, 200, 3000) is parsed, printed, debug-printed, cloned, dropped, despanned and deserialized on a 2 MiB thread inside a sacrificial process, in an opt-level-0 build and a release build; the worker must survive, rejection must be the recursion-limit error (recognised by what the library itself says for two reference documents far beyond the limit, not by a fixed wording), accepted trees are at most K = 160 deep, single constructs are accepted below 80 and rejected from 80.",
   "K = 160 (one header path plus one counted nest) is this check's reading of 'a small constant'; the claim over all inputs is decided for the enumerated construct combinations only.",
   "exhaustive enumeration of nesting-construct combinations around the limit; process-isolated bounded-stack execution"),
  "C16": ("model_checking", "state", "5/C16",
-  "Explicit-state breadth-first search to closure for Table, InlineTable, Array, ArrayOfTables and toml::Map: a state is (real container, reference ordered map / vector), a transition is one real API call over keys {a,b,c} and a small value set (including sub-tables, inline tables, arrays of tables and placeholders left by mutable indexing), applied to both; after every transition the return value and a full observation (len, is_empty, iteration order, get / contains_* / get_key_value per key, into_iter, printed and re-parsed text, the dyn TableLike view) must agree. States are deduplicated by the Debug form of the real object plus the model; the search reports states, transitions, depth and closure.",
-  "Item::None is read as 'absent'; reserved slots are invisible and only constrain where a later insert lands (the model mirrors the documented mechanics per container); array lengths bounded by 3-4; toml::Map's insertion-ordered configuration is searched by the cfg engine's binary (C18).",
+  "Explicit-state breadth-first search to closure for Table, InlineTable, Array, ArrayOfTables and toml::Map: a state is (real container, reference ordered map / vector), a transition is one real API call over keys {a,b,c} and a small value set (including sub-tables, inline tables, arrays of tables and placeholders left by mutable indexing), applied to both; after every transition the return value and a full observation (len, is_empty, iteration order, get / contains_* / get_key_value per key, into_iter, printed and re-parsed text, the dyn TableLike view) must agree. States are deduplicated by the Debug form of the real object plus the model; the search reports states, transitions, depth and closure. A sort family adds single transitions from wide start states: Array / Table / InlineTable with 0..40 (72) entries in every rotation with tie-producing keys (stability), and every order of 7 paths with two dotted levels x root / inline table x 4 comparators (recursion into dotted children).",
+  "Item::None is read as 'absent'; placeholders are invisible and kept only as a flag on the key: where a formerly-placeholder key lands is not promised by the property, so the model adopts the real position provided every other visible entry kept its relative order; array lengths bounded by 3-4; toml::Map's insertion-ordered configuration is searched by the cfg engine's binary (C18).",
   "explicit-state BFS over real API call histories with canonical-state deduplication; step-wise conformance with a reference container"),
  "C07": ("model_checking", "tree", "5/C07",
   "Complete enumeration of the values of a family of 15 derive(Serialize, Deserialize) root types over small leaf domains (enums of all four variant kinds inside sequences inside maps, optional tables, arrays of tables, mixed arrays via untagged enums, unit-variant map keys, every integer width at its edges, f32/f64 incl. NaN/inf/-0, chars, date-times in every position, tuples, newtypes, variants holding tables, and the documented unsupported shapes in struct-field, map-value and root position); six serializers; Ok(text) must be valid TOML (specification model) and decode to an equal value through both crates, Err is accepted only on the documented unsupported shapes.",
   "NaNs compare equal regardless of sign (documented normalisation of the serde serializers); the family is finite and fixed, deeper nestings than it contains are outside the bound.",
   "exhaustive enumeration of a finite value family through all serializers; round-trip and validity oracles"),
  "C13": ("model_checking", "tree", "5/C13",
-  "For every serializable value of the same family and its text: nine decoding routes must all succeed and return the value; Value::try_from / Table::try_from must equal parsing the serialized text; for every text of the document universes (token sequences, statement sequences, decor skeletons, date-time and number edge literals, corpus mutants) seven routes into toml::Value / toml::Table must agree on success and on the tree.",
+  "For every serializable value of the same family and its text: nine document routes and three single-value routes (the value written as one inline table by either ValueSerializer, read by both ValueDeserializers and Value::into_deserializer) must all succeed and return the value; Value::try_from / Table::try_from must equal parsing the serialized text; for every text of the document universes (token sequences, statement sequences, decor skeletons, date-time and number edge literals, corpus mutants) seven routes into toml::Value / toml::Table must agree on success and on the tree.",
   "Law-based oracle (routes agree, round trip); no reference model involved.",
   "exhaustive enumeration of values and documents; all-routes-agree oracle"),
  "C17": ("model_checking", "tree", "5/C17",
   "For every serializable value of the family: serialization is deterministic, reaches a fixed point in one step through the type and through toml::Table, Display equals to_string, and plain / pretty / toml_edit-pretty outputs decode equal. For every toml::Value table with 3-4 keys: every assignment of 7 entry kinds (scalar, array, array of tables, table, mixed array, empty table, empty array) x every insertion order x 2 nesting depths through three printers: valid TOML (specification model), equal decode, fixed point.",
-  "This binary is the default (sorted map) configuration; the insertion-ordered configuration runs the same value-tree enumeration in the cfg engine (C18).",
+  "The check binary is the default (sorted map) configuration; the check also builds the cfg engine's binary with preserve_order and runs the same value-tree enumeration plus the parse -> print -> parse battery there (equality by canonical form and by ==).",
   "exhaustive enumeration of value trees x insertion orders; fixed-point and validity oracles"),
  "C06": ("model_checking", "tree", "5/C06",
-  "Complete enumeration of tree shapes with <= 4 (quick) / 5 (thorough) nodes over {leaf, array, inline table, table, array of tables}, keys from 10 adversarial keys and leaves from ~240 adversarial leaves (every pair of byte-class representatives, control characters, quote runs, i64 edges, float specials, four date-time kinds) with <= 1-2 positions deviating; each tree is built through five construction routes and as toml::Table; printed text must be valid (specification model), accepted by the parser, decode to the built tree, be a fixed point and print identically twice and across routes.",
+  "Complete enumeration of tree shapes with <= 4 (quick) / 5 (thorough) nodes over {leaf, array, inline table, table, array of tables}, keys from 10 adversarial keys and leaves from ~240 adversarial leaves (every pair of byte-class representatives, control characters, quote runs, i64 edges, float specials, four date-time kinds) with <= 1 position deviating (thorough adds every PAIR of positions over a reduced leaf alphabet on the <= 4-node shapes) and every chain of <= 5 (7) nested containers; each tree is built through five construction routes and as toml::Table; printed text must be valid (specification model), accepted by the parser, decode to the built tree, be a fixed point and print identically twice and across routes.",
   "Key order is compared separately among value entries and among table entries (TOML syntax forces values first); NaNs by sign only. One known finding (empty array of tables prints nothing) recognised exactly.",
   "exhaustive enumeration of small value trees x construction routes; validity, decode-equality and fixed-point oracles"),
  "C08": ("model_checking", "state", "5/C08",
-  "Explicit-state search over edit histories: from 8 start documents (values, tables, interleaved arrays of tables, dotted and implicit tables, multi-line arrays with comments, sub-table before super-table, quoted keys, nested inline containers) and wide 24-44 header documents, every history of <= 3 (quick) / 4 (thorough) public edit calls on every path of the current document; after every step the printed text must be valid (specification model), a fixed point of the real parser, decode to the reference tree after the same edit (order among values and among array-of-tables elements), and every marked entry the edit did not touch must keep its line and the comment above it byte-for-byte. States are deduplicated by printed text + Debug of the document.",
+  "Explicit-state search over edit histories: from 8 start documents (values, tables, interleaved arrays of tables, dotted and implicit tables, multi-line arrays with comments, sub-table before super-table, quoted keys, nested inline containers) and wide 24-44 header documents, every history of <= 3 (quick) / 4 (thorough) public edit calls (insert / entry / index-assign / remove, sort, fmt, array push / insert / replace / remove / retain / clear, array-of-tables push / extend / remove / retain / clear, table retain / clear, inline <-> standard conversions) on every path of the current document; after every step the printed text must be valid (specification model), a fixed point of the real parser, decode to the reference tree after the same edit (order among values and among array-of-tables elements), and every marked entry the edit did not touch must keep its line and the comment above it byte-for-byte. States are deduplicated by printed text + Debug of the document.",
   "'Touched' is defined per call by the reference model; table-like siblings are compared as a set because printing follows recorded header positions; empty implicit tables / arrays of tables are invisible but kept; comments after a comma belong to the following array element, so marker comments sit before the comma.",
   "explicit-state BFS over real edit call histories; step-wise conformance with a reference tree plus verbatim-fragment oracle"),
  "C18": ("exploration", "cfg", "5/C18",
-  "The cargo feature matrix is enumerated completely (quick: 6 configurations, thorough: 20: toml_edit default / perf / serde / unbounded x parse+display / parse-only / display-only; toml default / preserve_order x parse+display / parse-only / display-only, with perf and unbounded underneath); every configuration must build; one deterministic battery (all documents of <= 4 tokens, all statement sequences <= 3, range-edge literals, decor samples, API-built documents, toml::Value trees in every insertion order, every toml::Map call history of <= 4 calls over 4 keys, equality of same-content tables) runs in each; block digests of verdicts, trees, printed text and sorted observations are compared between all configurations that can compute them, a differing block is dumped to locate the item.",
-  "Documented exceptions: order-dependent kinds are compared only between configurations with the same map ordering; unbounded only matters beyond the recursion limit, which the battery does not reach. The configuration space is enumerated completely, the battery is a bounded slice.",
+  "The cargo feature matrix is enumerated completely (quick: 8 configurations, thorough: 20: toml_edit default / perf / serde / unbounded x parse+display / parse-only / display-only; toml default / preserve_order x parse+display / parse-only / display-only, with perf and unbounded underneath); every configuration must build; one deterministic battery (all documents of <= 4 tokens, all statement sequences <= 3, range-edge literals, decor samples, API-built documents, toml::Value trees in every insertion order, every toml::Map call history of <= 4 calls over 4 keys, equality of same-content tables, 7 nesting constructs x 11 depths up to 200) runs in each, every library call guarded so that a panic is that configuration's result; block digests of verdicts, trees, printed text and sorted observations are compared between all configurations that can compute them, a differing block is dumped to locate the item.",
+  "Documented exceptions: order-dependent kinds are compared only between configurations with the same map ordering; the deep-nesting kind is compared only between configurations with the same boundedness, and the unbounded ones must accept every deep document. A battery process that dies is a violation of that configuration, not a machinery error. The configuration space is enumerated completely, the battery is a bounded slice.",
   "exhaustive enumeration of the feature matrix x a fixed battery; cross-configuration digest equality"),
  "C19": ("exploration", "prog", "5/C19",
   "Every document of the enumerated macro-tokenisable shapes (8 key shapes, 44 value shapes, 9 nestings, 9 header shapes, header pairs, statement pairs; 2.2 K documents quick, ~12 K thorough) that the parser accepts is written into generated Rust programs, once inside toml!{..} and once as a string literal, compiled against /repo and run; the macro's table must equal the parsed table (floats bit-wise); a shape that stops compiling is bisected to the document and reported.",
